@@ -218,7 +218,7 @@ func runC08(c *Ctx) {
 	ix := p.Index()
 	// ---- playable-agreement
 	sites := playableSites(c)
-	c.floor("playable-agreement", "implementations of the playable predicate", len(sites), 5)
+	c.floor("playable-agreement", "implementations of the playable predicate", len(sites), 2)
 	for _, site := range sites {
 		c.touch(fnKey(site.Fn))
 		s := newSumm(p, 0)
@@ -321,7 +321,7 @@ func runC08(c *Ctx) {
 				}
 			}
 		}
-		c.floor("positions-from-search", "position stores inside Next", nSt, 3)
+		c.floor("positions-from-search", "position stores inside Next", nSt, 2)
 		// search ranges in the blind assigner
 		// the blind assigner: the function Next calls that stores the big blind, itself or through
 		// package-private helpers, which are then analysed as part of it
@@ -352,7 +352,7 @@ func runC08(c *Ctx) {
 				base := smHelperFilter(p, assigner)
 				top := assigner
 				s.HelperInline = func(f *ssa.Function) bool {
-					return base(f) || (privateHelper(top, f) && ix.Info[f] != nil && (writesBB(f) || ix.Info[f].TWrites["seat_manager.SeatManager.bb"]) && len(findSentinelsOf(p, f)) == 0)
+					return base(f) || (privateHelper(top, f) && ix.Info[f] != nil && (writesBB(f) || ix.Info[f].TWrites["seat_manager.SeatManager.bb"] || ix.Info[f].TWrites["seat_manager.SeatManager.sb"]) && len(findSentinelsOf(p, f)) == 0)
 				}
 			}
 			paths, _ := s.Function(assigner)
@@ -628,7 +628,12 @@ func runC08(c *Ctx) {
 						continue
 					}
 					nOpen++
+					callerScope = map[*ssa.Function]bool{}
+					for _, g := range fns {
+						callerScope[g] = true
+					}
 					ok := afterBigBlind(ix, ri.Coll, f, 0)
+					callerScope = nil
 					c.check(ok, "reopened-after-bb", fnKey(f), p.FnPos(f), "the seats re-opened after the blinds are set are those after the big blind", "seats are re-opened from before the big blind: the seats just closed between the blinds are open again")
 				}
 			}
@@ -741,7 +746,7 @@ func runC08(c *Ctx) {
 			}
 			bad = append(bad, fnKey(w)+" changes Seat.IsActive outside the next-hand transition")
 		}
-		c.floor("active-flag-owner", "writers of Seat.IsActive", n, 3)
+		c.floor("active-flag-owner", "writers of Seat.IsActive", n, 2)
 		c.check(len(bad) == 0, "active-flag-owner", "Seat.IsActive", p.FnPos(next), "the waiting marker is written only by the next-hand transition and the reset/restore API", "a seat operation other than Next changes who is waiting for the button", bad...)
 	}
 
@@ -768,6 +773,8 @@ func runC08Strings(c *Ctx) {
 	c.role("position writer", fnKey(writer))
 	s := newSumm(p, 0)
 	s.EngineAliases = false
+	// the list may be put together by a loop-free helper given the seat
+	s.HelperInline = func(f *ssa.Function) bool { return privateHelper(writer, f) && len(findLoops(f)) == 0 }
 	for _, l := range s.loops(writer) {
 		body, _ := s.LoopBody(writer, l)
 		for _, ps := range body {
@@ -985,6 +992,28 @@ func afterBigBlind(ix *Index, v ssa.Value, fn *ssa.Function, depth int) bool {
 		}
 	case *ssa.Parameter:
 		return viaCallers(ix, x, fn, func(a ssa.Value, cl *ssa.Function) bool { return afterBigBlind(ix, a, cl, depth+1) })
+	case *ssa.Call:
+		// a helper that drops the head of the list it is given (seats[1:])
+		f := x.Call.StaticCallee()
+		if f == nil || f.Pkg != fn.Pkg || len(f.Blocks) != 1 || len(f.Params) == 0 {
+			return false
+		}
+		r, ok := f.Blocks[0].Instrs[len(f.Blocks[0].Instrs)-1].(*ssa.Return)
+		if !ok || len(r.Results) != 1 {
+			return false
+		}
+		sl, ok := r.Results[0].(*ssa.Slice)
+		if !ok || sl.High != nil {
+			return false
+		}
+		if lo, isC := constInt(sl.Low); !isC || lo != 1 {
+			return false
+		}
+		for i, prm := range f.Params {
+			if sl.X == ssa.Value(prm) && i < len(x.Call.Args) {
+				return startsAtBigBlind(ix, x.Call.Args[i], fn, depth+1)
+			}
+		}
 	}
 	return false
 }
@@ -1078,16 +1107,26 @@ func viaCallers(ix *Index, prm *ssa.Parameter, fn *ssa.Function, ok func(arg ssa
 	if idx < 0 || len(callers) == 0 {
 		return false
 	}
+	n := 0
 	for _, cl := range callers {
+		// a helper shared with another routine (the dealer search re-opens seats too): only the
+		// calls made on behalf of the routine under analysis count
+		if callerScope != nil && !callerScope[cl] {
+			continue
+		}
 		for _, cs := range ix.CallSites(cl, fn) {
 			args := cs.Common().Args
+			n++
 			if idx >= len(args) || !ok(args[idx], cl) {
 				return false
 			}
 		}
 	}
-	return true
+	return n > 0
 }
+
+// callerScope, when set, restricts viaCallers to call sites in these functions.
+var callerScope map[*ssa.Function]bool
 
 // unwrapSearch: a loop-free function that hands back, as its first result, the first result of
 // another function of the module is a wrapper of that search (it re-slices the list, say); the
